@@ -208,12 +208,25 @@ def gen_matrix_graph(rng, cap=1500):
 
 
 def gen_graph(rng, cap=1500):
-    r = rng.random()
-    if r < 0.55:
-        return gen_perm_graph(rng, cap)
-    if r < 0.75:
-        return gen_perm_graph(rng, cap, multiword=True)
-    return gen_matrix_graph(rng, cap)
+    """Mostly graphs with a non-trivial orbit (>= 12 vertices, >= 4 layers); a quarter are unconstrained (tiny orbits included)."""
+    want_big = rng.random() < 0.75
+    best = None
+    for _ in range(40):
+        r = rng.random()
+        if r < 0.55:
+            gd = gen_perm_graph(rng, cap)
+        elif r < 0.75:
+            gd = gen_perm_graph(rng, cap, multiword=True)
+        else:
+            gd = gen_matrix_graph(rng, cap)
+        if not want_big:
+            return gd
+        layers, dist = ref_bfs(gd, [gd["central"]], cap)
+        if len(dist) >= 12 and len(layers) >= 4:
+            return gd
+        if best is None or len(dist) > best[0]:
+            best = (len(dist), gd)
+    return best[1]
 
 
 def gen_starts(rng, gd, dist):
